@@ -236,6 +236,7 @@ class KRun:
         self.nontrivial = set()
         self.disagreements, self.violations, self.samples = [], [], []
         self.distribution = {}
+        self.extra = {}
 
     def count(self, key, n=1):
         self.distribution[key] = self.distribution.get(key, 0) + n
@@ -266,7 +267,7 @@ class KRun:
     def result(self, rule, exhaustive=False, extra=None):
         return {"evaluations": self.evaluations, "distinct_nontrivial": len(self.nontrivial), "rule": rule,
                 "samples": self.samples, "disagreements": self.disagreements, "violations": self.violations,
-                "distribution": self.distribution, "exhaustive": exhaustive, "extra": extra or {}}
+                "distribution": self.distribution, "exhaustive": exhaustive, "extra": {**self.extra, **(extra or {})}}
 
 
 def replay_ops(ctx):
